@@ -1,5 +1,6 @@
 import CopVerif.Base.FloatIO
 import CopVerif.Model.GaussCond
+import CopVerif.Gen.GaussCond
 /-!
   Driver command for the C12 model (`CopVerif.Model.GaussCond`) evaluated at `Float`.
 
@@ -23,6 +24,10 @@ import CopVerif.Model.GaussCond
      out <d> { <label> <F|D> <len> <len floats> }
   ```
   `F` = conditioned column (`replicate n value`), `D` = the draw column selected BY LABEL (pre-ppf).
+
+  Variant tokens `gen gen`: the same request is answered from the definitions GENERATED from the source
+  (`CopVerif.Gen.GaussCond`: `conditionalArg`, `samplerArgs`, `sample`) instead of the hand model — translation
+  validation of `tools/gen_gausscond.py` (tag `F` = the label is a condition key).
 -/
 namespace CopVerif.Driver.GaussCondD
 open CopVerif CopVerif.IO CopVerif.Model.GaussCond
@@ -36,6 +41,7 @@ def bitEq (a b : Float) : Bool := a.toBits == b.toBits
 
 structure Req (ι : Type) where
   v : Variant
+  useGen : Bool
   kind : Container
   cols : List ι
   sigma : List (List Float)
@@ -47,9 +53,9 @@ structure Req (ι : Type) where
 
 def parseReq {ι : Type} (lab : String → Option ι) (ws : List String) : Option (Req ι) := do
   let (ls, ws) ← ws.head?.map fun h => (h, ws.drop 1)
-  let lb ← match ls with | "caller" => some Labelling.callerOrder | "walked" => some .walked | _ => none
+  let lb ← match ls with | "caller" => some Labelling.callerOrder | "walked" => some .walked | "gen" => some .walked | _ => none
   let (ts, ws) ← ws.head?.map fun h => (h, ws.drop 1)
-  let tt ← match ts with | "truth" => some TruthTest.truthValue | "notnone" => some .isNotNone | _ => none
+  let tt ← match ts with | "truth" => some TruthTest.truthValue | "notnone" => some .isNotNone | "gen" => some .isNotNone | _ => none
   let v : Variant := ⟨lb, tt⟩
   let (ks, ws) ← ws.head?.map fun h => (h, ws.drop 1)
   let kind ← match ks with | "dict" => some Container.dict | "series" => some .series | _ => none
@@ -73,7 +79,7 @@ def parseReq {ι : Type} (lab : String → Option ι) (ws : List String) : Optio
   let dr ← parseFloats ws
   if cols.length != d || sig.length != d * d || keys.length != k || values.length != k
       || tab.length != d * k || dr.length != n * m then none
-  else some { v := v, kind := kind, cols := cols, sigma := chunk d d sig, keys := keys, values := values,
+  else some { v := v, useGen := ls == "gen" || ts == "gen", kind := kind, cols := cols, sigma := chunk d d sig, keys := keys, values := values,
               scoreTab := chunk k d tab, n := n, draws := chunk m n dr }
 
 def run {ι : Type} [DecidableEq ι] (shw : ι → String) (le : ι → ι → Bool) (r : Req ι) : String :=
@@ -82,6 +88,24 @@ def run {ι : Type} [DecidableEq ι] (shw : ι → String) (le : ι → ι → B
   let S : Corr ι Float := { labels := r.cols, data := r.sigma }
   let c : Conditions ι Float := { kind := r.kind, items := r.keys.zip r.values }
   let labs (ls : List ι) : String := " ".intercalate (ls.map shw)
+  if r.useGen then
+    let inv : List (List Float) → List (List Float) := fun A => gaussJordan A.length A
+    match Gen.GaussCond.conditionalArg score S c with
+    | .error e => "err " ++ toString e
+    | .ok nc =>
+      match Gen.GaussCond.sample inv le score (fun _ z => z) (fun z => z) (fun _ _ _ => r.draws) S r.n (some c) with
+      | .error e => "err " ++ toString e
+      | .ok out =>
+        match Gen.GaussCond.samplerArgs inv le score S (some c) with
+        | .error e => "err " ++ toString e
+        | .ok d =>
+          let outS := out.map fun q =>
+            let t := if c.keys.contains q.1 then "F" else "D"
+            s!"{shw q.1} {t} {q.2.length} {showFloats q.2}"
+          s!"ok nc {nc.length} {labs (nc.map Prod.fst)} {showFloats (nc.map Prod.snd)} " ++
+          s!"c1 {d.columns.length} {labs d.columns} mean {showFloats d.mean} " ++
+          s!"cov {showFloats d.cov.flatten} out {out.length} " ++ " ".intercalate outS
+  else
   match normalConditions r.v r.cols score c with
   | .error e => "err " ++ toString e
   | .ok nc =>
